@@ -47,6 +47,10 @@ impl JobTask {
 
     /// Waits for the task to complete. Returns the result of the wait.
     pub async fn wait(&mut self) -> Result<JobTaskWaitResult, error::Error> {
+        #[cfg(feature = "verif-hooks")]
+        if let Self::Internal(handle) = self {
+            crate::verif::before_join(handle);
+        }
         match self {
             Self::External(process) => {
                 let wait_result = process.wait().await?;
@@ -66,6 +70,10 @@ impl JobTask {
     /// Behaves in a best-effort manner; if an internal error occurs during polling,
     /// it will return `None`.
     fn poll(&mut self) -> Option<Result<ExecutionResult, error::Error>> {
+        #[cfg(feature = "verif-hooks")]
+        if let Self::Internal(handle) = self {
+            crate::verif::before_poll(handle);
+        }
         match self {
             Self::External(process) => {
                 let check_result = process.poll();
